@@ -93,10 +93,11 @@ class AlignShape(Contract):
     func = "align_shape"
     properties = ("C04", "C12", "C17")
     assumptions = ("B1, B2 (definition of the abstract view under cleaning and broadcasting)",
-                   "arity 1..2 enumerated (variadic *polys; arity 3-4: bounded check); operands given as ndpoly (other kinds: aspolynomial's contract)")
+                   "arity 1..2 enumerated (thorough tier: 3; variadic *polys; arity 4: bounded check); operands given as ndpoly (other kinds: aspolynomial's contract)")
 
     def cases(self):
-        for k in (1, 2):           # arity 3 multiplies the paths of two rebuilt operands; covered by the bounded check
+        from engine.contract import deep
+        for k in ((1, 2, 3) if deep() else (1, 2)):           # arity 3 (many paths): thorough tier; arity 4: bounded check
             def make_env(ex, k=k):
                 ps = sym_polys(ex, k)
                 ex.inputs = ps
@@ -168,10 +169,11 @@ class AlignIndeterminants(Contract):
     assumptions = ("B3: re-indexing the exponent columns by indeterminate name (zero exponent for names a polynomial does not "
                    "mention) does not change the polynomial denoted",
                    "A6: names are canonical (prefix + decimal index), so sorting by the numeric suffix is sorting by index",
-                   "CPython set/sorted semantics for the union of the name tuples (axiom sorted_union); arity 1..2 enumerated")
+                   "CPython set/sorted semantics for the union of the name tuples (axiom sorted_union); arity 1..2 enumerated (thorough tier: 3)")
 
     def cases(self):
-        for k in (1, 2):
+        from engine.contract import deep
+        for k in ((1, 2, 3) if deep() else (1, 2)):
             def make_env(ex, k=k):
                 ps = sym_polys(ex, k, broadcast=False)
                 ex.inputs = ps
@@ -260,10 +262,11 @@ class AlignExponents(Contract):
     func = "align_exponents"
     properties = ("C04", "C12", "C17")
     assumptions = ("B4 (adding all-zero terms / reordering terms does not change the abstract value)",
-                   "arity 1..3 enumerated; assumed contract of align_indeterminants on the different-names path")
+                   "arity 1..3 enumerated (thorough tier: 4); assumed contract of align_indeterminants on the different-names path")
 
     def cases(self):
-        for k in (1, 2, 3):
+        from engine.contract import deep
+        for k in ((1, 2, 3, 4) if deep() else (1, 2, 3)):
             def make_env(ex, k=k):
                 ps = sym_polys(ex, k, broadcast=False)
                 ex.inputs = ps
@@ -338,7 +341,8 @@ class AlignPolynomials(Contract):
     properties = ("C04",)
 
     def cases(self):
-        for k in (1, 2, 3):
+        from engine.contract import deep
+        for k in ((1, 2, 3, 4) if deep() else (1, 2, 3)):
             def make_env(ex, k=k):
                 ps = sym_polys(ex, k)
                 ex.inputs = ps
